@@ -329,11 +329,13 @@ Definition no_calls (e : env) : list (list (N * ureq)) := map (fun _ => []) (e_r
 Definition stop (e : env) (evs : list event) : result :=
   {| o_panic := false; o_events := evs; o_unblind := no_calls e; o_submit := None; o_ret := 0 |}.
 
-Definition propose (c : config) (e : env) (d : duty) : result :=
+(* Propose up to and including signProposalData: the requests made, and the signed proposal if
+   one was assembled *)
+Definition sign_phase (c : config) (e : env) (d : duty) : list event * option (proposal * sproposal) :=
   (* validateDuty *)
-  if d_randao d =? 0 then stop e [] else
+  if d_randao d =? 0 then ([], None) else
   match d_account d with
-  | None => stop e []
+  | None => ([], None)
   | Some acct =>
   let slot := d_slot d in
   (* obtainGraffiti: failure => zero graffiti *)
@@ -341,43 +343,53 @@ Definition propose (c : config) (e : env) (d : duty) : result :=
   let graffiti := graffiti_value e in
   (* proposeBlock: auction failure is logged *)
   let ev2 := ev1 ++ auction_events e d acct in
-  let auction := auction_results e in
   let ev3 := ev2 ++ [EProposal slot (d_randao d) graffiti (c_boost c)] in
   match e_proposal e with
-  | PErr => stop e ev3
+  | PErr => (ev3, None)
   | POk p =>
   (* confirmProposalData *)
   match proposal_slot p with
-  | None => stop e ev3
+  | None => (ev3, None)
   | Some ps =>
-  if negb (ps =? slot) then stop e ev3 else
+  if negb (ps =? slot) then (ev3, None) else
   (* signProposalData: BodyRoot needs the body *)
   match p_block p with
-  | None => stop e ev3
+  | None => (ev3, None)
   | Some h =>
-  if negb (p_body_present p) then stop e ev3 else
+  if negb (p_body_present p) then (ev3, None) else
   let epoch := slot / c_spe c in
   let ev4 := ev3 ++ [EDomain DOMAIN_BEACON_PROPOSER epoch] in
-  if negb (e_dom_block e) then stop e ev4 else
+  if negb (e_dom_block e) then (ev4, None) else
   let ev5 := ev4 ++ [ESignBlock acct slot (d_validator d) (h_parent h) (h_state h) (h_body h)
                                 (DOMAIN_BEACON_PROPOSER, epoch)] in
   match e_sig_block e with
-  | None => stop e ev5
+  | None => (ev5, None)
   | Some sig =>
   match signed_container (p_version p) (p_blinded p) with
-  | None => stop e ev5
+  | None => (ev5, None)                   (* "unhandled proposal version" *)
   | Some code =>
-  let sp := {| sp_version := p_version p; sp_blinded := p_blinded p;
-               sp_conts := [(code, {| sb_hdr := Some h; sb_sig := sig; sb_blobs := signed_blobs p |})] |} in
-  if negb (p_blinded p) then
-    {| o_panic := false; o_events := ev5; o_unblind := no_calls e; o_submit := Some (0, sp); o_ret := 0 |}
+      (ev5, Some (p, {| sp_version := p_version p; sp_blinded := p_blinded p;
+                        sp_conts := [(code, {| sb_hdr := Some h; sb_sig := sig; sb_blobs := signed_blobs p |})] |}))
+  end end end end end end.
+
+(* the relays asked to unblind: those of the winning bid, or all *)
+Definition candidates (c : config) (winners all : list nat) : list nat :=
+  if Nat.eqb (length winners) 0 || c_unblind_all c then all else winners.
+
+Definition can_unblind (e : env) (i : nat) : bool :=
+  match nth_error (e_relays e) i with Some r => r_can r | None => false end.
+
+(* proposeBlock after signing *)
+Definition deliver_phase (c : config) (e : env) (evs : list event) (sp : sproposal) : result :=
+  if negb (sp_blinded sp) then
+    {| o_panic := false; o_events := evs; o_unblind := no_calls e; o_submit := Some (0, sp); o_ret := 0 |}
   else
-  match auction with
-  | None => stop e ev5                    (* "no auction results to unblind the proposal" *)
+  match auction_results e with
+  | None => stop e evs                    (* "no auction results to unblind the proposal" *)
   | Some (winners, all) =>
-  let cands := if Nat.eqb (length winners) 0 || c_unblind_all c then all else winners in
-  if negb (existsb (fun i => match nth_error (e_relays e) i with Some r => r_can r | None => false end) cands)
-  then stop e ev5                         (* "no relays to unblind the block" *)
+  let cands := candidates c winners all in
+  if negb (existsb (can_unblind e) cands)
+  then stop e evs                         (* "no relays to unblind the block" *)
   else
   let req := unblind_request sp in
   let plans := plans_from (e_deadline e) cands 0 (e_relays e) in
@@ -386,22 +398,28 @@ Definition propose (c : config) (e : env) (d : duty) : result :=
   match w with
   | Some t =>
       if t <? e_deadline e then
-        match full_container (p_version p) with
+        match full_container (sp_version sp) with
         | None =>                         (* "unsupported version" *)
-            {| o_panic := false; o_events := ev5; o_unblind := calls; o_submit := None; o_ret := t |}
+            {| o_panic := false; o_events := evs; o_unblind := calls; o_submit := None; o_ret := t |}
         | Some fc =>
             let conts := match winning_out t plans with
                          | Some o => match response req o with Some b => [(fc, b)] | None => [] end
                          | None => []
                          end in
-            {| o_panic := false; o_events := ev5; o_unblind := calls;
-               o_submit := Some (t, {| sp_version := p_version p; sp_blinded := false; sp_conts := conts |});
+            {| o_panic := false; o_events := evs; o_unblind := calls;
+               o_submit := Some (t, {| sp_version := sp_version sp; sp_blinded := false; sp_conts := conts |});
                o_ret := t |}
         end
-      else {| o_panic := false; o_events := ev5; o_unblind := calls; o_submit := None; o_ret := e_deadline e |}
-  | None => {| o_panic := false; o_events := ev5; o_unblind := calls; o_submit := None; o_ret := e_deadline e |}
+      else {| o_panic := false; o_events := evs; o_unblind := calls; o_submit := None; o_ret := e_deadline e |}
+  | None => {| o_panic := false; o_events := evs; o_unblind := calls; o_submit := None; o_ret := e_deadline e |}
   end
-  end end end end end end end.
+  end.
+
+Definition propose (c : config) (e : env) (d : duty) : result :=
+  match sign_phase c e d with
+  | (evs, None) => stop e evs
+  | (evs, Some (_, sp)) => deliver_phase c e evs sp
+  end.
 
 (* Prepare then Propose on the same duty, as the controller does (the harness also proposes after a
    failed Prepare, and on duties it filled in by hand) *)
